@@ -302,6 +302,10 @@ def obligations(tier):
     # V3/slice: LIMIT/OFFSET composition for symbolic n / offsets (the same VC as C08/S6, stated here for slice_head's own meaning)
     obs.append(Obligation("C02/V3/slice_compose/sql", "V3", "slice_head after slice_head on SQL selects rows [O+k, O+k+min(n, max(L-k,0))) for all L, O, n, k", c08.make_s6("sql"), functions=[H.fn_info(H.sql_backend.SqlImpl.compile_ast)], replayer=c08.replay_s6))
     obs.append(Obligation("C02/V2/slice_compose/polars", "V2", "Polars applies slice(offset, n) to the current frame", c08.make_s6("polars"), functions=[H.fn_info(H.polars_backend.compile_ast)]))
+    from . import c03
+
+    obs.append(Obligation("C02/V8/narrow_columns", "V8", "mutate over Int8 / Int32 / UInt16 / Float32 columns (with columns and Python literals) computes the values it computes on the widened data (native Polars)", c03.narrow_types_run,
+                          functions=[H.fn_info(H.polars_backend.compile_col_expr)], bounded="every element-wise operator x signatures of arity <= 2 with a narrow column on one 3-row frame"))
     obs.append(Obligation("C02/V7/compositions", "V7", "pre-composed and reused verb compositions against a row-by-row oracle (native, both engines)", v7_run,
                           functions=[H.fn_info(pdt._internal.pipe.pipeable.Pipeable.__rshift__), H.fn_info(pdt._internal.pipe.pipeable.Pipeable.__call__)], bounded="10 compositions of 4 verbs x 2 backends on one 5-row table"))
     obs.append(Obligation("C02/V1d/defaults", "V1", "documented default arguments (offset=0, add=False, distinct=False, validate='m:m', fresh uuids after alias, collect keeps references, strict casts, null fill)", v1d_run,
